@@ -6,7 +6,7 @@ import math
 from fractions import Fraction
 
 ATOMS = [None, False, True, 0, 1, 2, 1.0, -0.0, '', '0', 'a', 2 ** 63, float('inf')]
-EXTRA_ATOMS = [2 ** 53 + 1, float(2 ** 53), 0.1, -1, 1e400 if False else float('-inf'), '\U0001F600', '\udcff', 'true', 'null', '1']
+EXTRA_ATOMS = [2 ** 53 + 1, float(2 ** 53), 0.1, -1, 1e400 if False else float('-inf'), '\U0001F600', '\udcff', '\ud83d\ude00', 'true', 'null', '1']
 # dict keys: strings and the non-string keys json.dumps stringifies (some
 # collide after stringification: 0 / '0', None / 'null', True / 'true')
 KEYS = ['', '0', 'a', 'true', 'null', '1', 0, 1, 1.5, None, True, False]
